@@ -68,9 +68,19 @@ func (n *node) strobe() {
 	verifEv("strobe", n, nil)
 	n.mu.Unlock()
 
-	for _, to := range out {
-		to.invalidate()
+	invalidateAll(out)
+}
+
+// invalidateAll invalidates the nodes one after the other. Each node's turn is
+// deferred behind the one before it: a handler that ends the goroutine
+// (runtime.Goexit, as t.Fatal does) or panics in the middle does not keep the
+// remaining nodes from being invalidated.
+func invalidateAll(nodes []*node) {
+	if len(nodes) == 0 {
+		return
 	}
+	defer invalidateAll(nodes[1:])
+	nodes[0].invalidate()
 }
 
 // invalidate invalidates node if it has not yet been invalidated
@@ -98,13 +108,12 @@ func (n *node) invalidate() {
 	verifEv("inv", n, nil)
 	n.mu.Unlock()
 
+	// recursively invalidate dependencies (after the handler, also if it does
+	// not return)
+	defer invalidateAll(out)
+
 	if n.afterInvalidate != nil {
 		n.afterInvalidate()
-	}
-
-	// recursively invalidate dependencies
-	for _, to := range out {
-		to.invalidate()
 	}
 }
 
